@@ -19,6 +19,26 @@ def _w_sites(sup):
     return out
 
 
+def _written_data(sup, n, t):
+    """(node, operand, complete) for the data of an io::Write call: `write_all(data)` is complete; so is
+    `write!(w, "{}", text)` / `write!(w, "{text}")` with a string argument (io::Write::write_fmt hands the one piece to
+    write_all and reports its error); `write` and the rest are not."""
+    name = fn_of(t)["name"]
+    if name == "write_fmt" and len(t["args"]) > 1:
+        tp = common.template_of_s(sup, n, t["args"][1])
+        if tp and tp[0] == "tmpl" and tp[1] == "{}" and len(tp[3]["args"]) >= 2:
+            onode, oterm = tp[2], tp[3]
+            tr = strace(sup, onode, oterm["args"][1])
+            if tr.origin and tr.origin[0] == "agg" and len(tr.origin[1]["rv"]["ops"]) == 1:
+                t2 = strace(sup, tr.origin_node, tr.origin[1]["rv"]["ops"][0])
+                if t2.origin and t2.origin[0] == "call":
+                    af = fn_of(t2.origin[2]) or {}
+                    aty = (af.get("args") or ["?"])[-1]
+                    if "Argument" in af.get("def", "") and af.get("name") == "new_display" and aty.lstrip("&") in ("std::string::String", "str") and t2.origin[2]["args"]:
+                        return (t2.origin_node[0], t2.origin[1]), t2.origin[2]["args"][0], True
+    return n, (t["args"][1] if len(t["args"]) > 1 else None), name == "write_all"
+
+
 def _consumers(sup):
     """Calls that receive the entry point's input argument (argument 2 of the root)."""
     out = []
@@ -173,7 +193,8 @@ def r08_2(ctx):
             name = fn_of(t)["name"]
             recv_ty = b.local_ty(t["args"][0]["p"]["l"]) if is_place(t["args"][0]) else "?"
             # (a) dominated by the Table edge of some toml::Value test, or the serialised object is a Table by type
-            tr = strace(sup, n, t["args"][1]) if len(t["args"]) > 1 else None
+            dn_, dop_, _ = _written_data(sup, n, t)
+            tr = strace(sup, dn_, dop_) if dop_ is not None else None
             ser_calls = [c for c in (tr.calls() if tr else [])]
             origin_call = None
             if tr and tr.origin and tr.origin[0] == "call":
@@ -210,7 +231,7 @@ def r08_2(ctx):
             ctx.ob(f"{e.name}:writes", False, site(e), "TOML entry point performs no write at all")
 
 
-@rule("R08.3", 2, "exactly one write, write_all, not on a cycle, after every fallible conversion", ["C08"])
+@rule("R08.3", 2, "exactly one write, write_all, not on a cycle, after every fallible conversion", ["C08", "C12", "C15"])
 def r08_3(ctx):
     o, entries = _entries(ctx)
     lib = ctx.lib
@@ -221,8 +242,9 @@ def r08_3(ctx):
         ctx.ob(f"{e.name}:single-write-site", len(ws) == 1, site(e), f"{len(ws)} write site(s) on the sink: {[fn_of(t)['name'] for _, _, t in ws]}")
         for n, b, t in ws:
             name = fn_of(t)["name"]
-            ctx.ob(f"{e.name}:{name}:is-write_all", name == "write_all", sup.site(n),
-                   "complete write" if name == "write_all" else f"`{name}` may emit a partial or extra document fragment")
+            complete = _written_data(sup, n, t)[2]
+            ctx.ob(f"{e.name}:{name}:is-write_all", complete, sup.site(n),
+                   "complete write" if complete else f"`{name}` may emit a partial or extra document fragment")
             ctx.ob(f"{e.name}:{name}:not-on-cycle", not sup.on_cycle(n), sup.site(n), "write executes at most once per call")
             after = ps.reach_from_node(n)
             fallible = []
@@ -306,7 +328,7 @@ def r08_5(ctx):
                 idx = [v["idx"] for v in adt["variants"] if v["name"] == variant][0]
                 sw = sb.blocks[0]["term"]
                 tg = [x for v, x in sw["targets"] if v == idx][0]
-                names = [fn_of(t)["name"] for bb, t in sb.calls() if sb.edge_dominates(0, idx, tg, bb) and (fn_of(t) or {}).get("trait") == "serde::Serializer"]
+                names = [common.ser_method_name(fn_of(t)) for bb, t in sb.calls() if sb.edge_dominates(0, idx, tg, bb) and (fn_of(t) or {}).get("trait") in ("serde::Serializer", "serde::Serialize")]
                 ok = names == ["serialize_unit"]
                 det = f"borrowed value forwards null (Value::{variant}) with {names}"
     ctx.ob("value:null-as-unit", ok, value["self_ty"], det + ("" if ok else " — toml silently drops `none` map entries instead of refusing the document"))
